@@ -203,6 +203,12 @@ func sharingConfigs(env *engine.Env) []fixture.Doc {
 		oc = append(oc, map[string]any{"src": t.P("no/such/source.conf"), "dst": "/etc/missing.conf"})
 		d["overrides"] = map[string]any{"deb": map[string]any{"contents": oc}, "apk": map[string]any{"contents": oc}}
 	}))
+	// rpm-only entries and one file, all at the top of the tree (no parent directories are implied: the plan of a
+	// format that drops the rpm-only kinds is shorter than the configured list)
+	docs = append(docs, mk([]model.Entry{{Src: "doc/LICENSE", Dst: "/LICENSE", Type: "license"}, {Src: "doc/README", Dst: "/README", Type: "readme"}, {Src: "doc/manual.txt", Dst: "/manual.txt", Type: "doc"},
+		{Dst: "/state.db", Type: "ghost"}, {Src: "doc/LICENSE", Dst: "/COPYING", Type: "licence"}, {Dst: "/cache.db", Type: "ghost"}, {Src: "bin/app", Dst: "/tool"}}, nil))
+	// a version taken as written that starts with a v
+	docs = append(docs, mk(plain, func(d fixture.Doc) { d["version"] = "v1.2"; d["version_schema"] = "none"; d["release"] = "3" }))
 	// everything together
 	all := mk(append(append([]model.Entry{}, partial...), tagged[1:]...), func(d fixture.Doc) {
 		d["overrides"] = map[string]any{"deb": map[string]any{"umask": 0o077, "depends": []any{"only-deb"}}, "rpm": map[string]any{"rpm": map[string]any{"signature": map[string]any{"key_id": "cccc3333"}}}}
